@@ -163,6 +163,13 @@ func (p *Program) verifyFunction(fn *ssa.Function, ct *Contract) *FuncReport {
 				rep.Aborted = fmt.Sprintf("internal error: %v at %s", r, strings.Join(where, " <- "))
 			}
 		}()
+		// a loop invariant for a loop the function does not have would be ignored silently
+		nloops := len(x.loopsOf(fn))
+		for _, cl := range ct.Invs {
+			if cl.Loop >= nloops {
+				x.abort("contract has an invariant for loop %d but the function has %d loop(s)", cl.Loop, nloops)
+			}
+		}
 		x.verify(fn, ct, rep)
 	}()
 	rep.Obls = x.obls
